@@ -955,6 +955,9 @@ class Noise(EnvironmentFilter):
                 if is_callable: noisy_rewards = DiscreteReward(noisy_actions, noisy_rewards)
                 new['rewards'] = noisy_rewards
 
+            if self._action_noise and 'actions' in new and callable(new.get('feedbacks')):
+                new['feedbacks'] = DiscreteReward(noisy_actions, list(map(new['feedbacks'],actions)))
+
             yield new
 
     def _noises(self, value:Union[None,float,str,Mapping,Sequence], rng: CobaRandom, noiser: Callable[[float,CobaRandom], float]):
